@@ -121,6 +121,55 @@ def runXzMtPre (b : Build) (threads flags limThr limStop : Nat) (pre sets : List
   let evs := Ev.fmt (.init 0 core0.memusage core0.memlimitStop) :: pe.map PreEv.fmt ++ r'.out.reverse.map Ev.fmt
   s!"{" ".intercalate evs} R{code}"
 
+/-! ## Single-call decoders with an in/out memory limit -/
+
+/-- One `lzma_stream_buffer_decode(&memlimit, flags, allocator, in, &in_pos, in_size, out, …)` over a complete file with
+    enough output space: (return code, `*memlimit` afterwards, peak bytes, `*in_pos` afterwards). It is one run of the
+    Stream decoder (no lzma_internal: the coder is used directly) with LZMA_FINISH and nobody answering
+    LZMA_MEMLIMIT_ERROR; on that error the amount needed is written back into `*memlimit`; on every other result
+    `*memlimit` is untouched; positions are restored on any error. -/
+def streamBufStep (b : Build) (flags limit : Nat) (inp : List UInt8) : Nat × Nat × Nat × Nat :=
+  if flags / 4 % 2 = 1 then (11, limit, 0, 0)           -- LZMA_TELL_ANY_CHECK is not allowed here
+  else
+    let (code, r) := xzRun b flags limit [] inp
+    let peak := r.core.heap.peak - b.szInternal
+    if code = 1 then (0, limit, peak, r.consumed)
+    else if code = 6 then (6, r.core.memusage, peak, 0)
+    else if code = 10 then (9, limit, peak, 0)            -- truncated input: LZMA_DATA_ERROR
+    else (code, limit, peak, 0)
+
+/-- One `lzma_index_buffer_decode(&i, &memlimit, allocator, in, &in_pos, in_size)` over a valid Index field. -/
+def indexBufStep (b : Build) (limit : Nat) (inp : List UInt8) : Nat × Nat × Nat × Nat :=
+  let h := ({} : Heap).allocs [b.szIndex, b.szIndexStream]
+  match inp with
+  | [] => (9, limit, h.peak, 0)
+  | _ :: r0 =>
+    match Vli.vliDecode r0 with
+    | none => (9, limit, h.peak, 0)
+    | some (count, _) =>
+      let mu := (indexMemusage b 1 count).getD UINT64_MAX
+      if mu > initLimit limit then (6, mu, h.peak, 0)
+      else match Container.indexDecode inp with
+        | .error _ => (9, limit, h.peak, 0)
+        | .ok (_, rest) =>
+          let h2 := if count = 0 then h else h.alloc (b.szIndexGroup + count * b.szIndexRecord)
+          (0, limit, h2.peak, inp.length - rest.length)
+
+/-- The caller's loop: after LZMA_MEMLIMIT_ERROR call again with the value written back, at most `retries` times. -/
+def bufRetry (step : Nat → Nat × Nat × Nat × Nat) : Nat → Nat → List String
+  | retries, limit =>
+    let (ret, ml, peak, pos) := step limit
+    let ev := s!"B{ret}/{ml}/{peak}/{pos}"
+    match retries with
+    | 0 => [ev]
+    | n + 1 => if ret = 6 then ev :: bufRetry step n ml else [ev]
+
+def runStreamBuf (b : Build) (flags limit retries : Nat) (inp : List UInt8) : String :=
+  " ".intercalate (bufRetry (fun l => streamBufStep b flags l inp) retries limit)
+
+def runIndexBufRetry (b : Build) (limit retries : Nat) (inp : List UInt8) : String :=
+  " ".intercalate (bufRetry (fun l => indexBufStep b l inp) retries limit)
+
 /-- "<pre>;<reactions>" → (pre, reactions); without ';' there are no pre-input calls. -/
 def parseSetsPre (s : String) : Option (Option (List SetTok) × List SetTok) :=
   match s.splitOn ";" with
